@@ -463,7 +463,7 @@ def stage_trace(chk, tier, seed, n_quick=24, n_thorough=300, par=4, prop=None):
                 continue
             reported.add(name)
             detail = dict(detail)
-            detail.update(scenario=sc, exit_status=res["rc"], stderr_tail=res["stderr"][-800:],
+            detail.update(input=a["case"], scenario=sc, exit_status=res["rc"], stderr_tail=res["stderr"][-800:],
                           received=(a["case"] or {}).get("events"),
                           handshakes=[s["hs"] for s in a["steps"]],
                           emitted=[[e["k"] for e in s["emitted"]] for s in a["steps"]],
